@@ -92,6 +92,7 @@ type Result struct {
 	Samples      []any          `json:"samples"`
 	DetChecked   int            `json:"determinism_rechecks"`
 	DetMismatch  []string       `json:"determinism_mismatches"`
+	Watchdog     string         `json:"watchdog,omitempty"`
 	ReplayOK     *bool          `json:"replay_ok,omitempty"`
 	ReplayNote   string         `json:"replay_note,omitempty"`
 }
@@ -194,6 +195,14 @@ func Main(name string, eng Engine) error {
 	variant := os.Getenv("VERIF_VARIANT")
 	res := &Result{Property: prop, Engine: name, Variant: variant, Probes: map[string]int{}, Faults: map[string]int{}}
 	start := time.Now()
+	if out != "" {
+		partial = func(note string) {
+			res.Watchdog = note
+			res.WallS = time.Since(start).Seconds()
+			b, _ := json.Marshal(res)
+			_ = os.WriteFile(out, b, 0o644)
+		}
+	}
 	var err error
 	switch mode {
 	case "replay":
@@ -213,6 +222,7 @@ func Main(name string, eng Engine) error {
 	default:
 		err = fmt.Errorf("unknown VERIF_MODE %q", mode)
 	}
+	partial = nil
 	res.WallS = time.Since(start).Seconds()
 	if out != "" {
 		b, _ := json.Marshal(res)
@@ -229,13 +239,20 @@ func Main(name string, eng Engine) error {
 // guarded executes one plan under a real-time watchdog: a run that does not
 // come back (a task holding a lock across a yield, an endless loop without a
 // scheduling point) is harness trouble: dump the stacks and exit 3.
+// partial, when set, is written out by the watchdog before it kills the
+// process so that what the worker found so far is not lost.
+var partial func(note string)
+
 func guarded(eng Engine, plan any, prop string, what string) Outcome {
-	limit := time.Duration(envInt("VERIF_RUN_WATCHDOG_S", 120)) * time.Second
+	limit := time.Duration(envInt("VERIF_RUN_WATCHDOG_S", 45)) * time.Second
 	tm := time.AfterFunc(limit, func() {
 		buf := make([]byte, 1<<20)
 		n := runtime.Stack(buf, true)
 		pj, _ := json.Marshal(plan)
 		fmt.Fprintf(os.Stderr, "WATCHDOG: run %s exceeded %v\nplan: %s\n%s\n", what, limit, pj, buf[:n])
+		if partial != nil {
+			partial(fmt.Sprintf("WATCHDOG: run %s exceeded %v of wall time", what, limit))
+		}
 		os.Exit(3)
 	})
 	defer tm.Stop()
